@@ -21,9 +21,10 @@
      sort_any_order            the model's sort returns the same list for every permutation of its input
      det_equal_converse        equal deterministic bytes of two valid messages => same abstract
                                content (hence proto.Equal, C30_equal_refl) -- from C03's injectivity,
-                               and therefore _partial exactly where C03 is: [msg_valid] excludes
-                               group-typed values carrying unknown bytes and, on the reflection
-                               path, group-typed fields
+                               under C03's validity predicate [msg_valid] (which on the reflection
+                               path asks group-typed values to pass the wire scanner,
+                               msg_group_scans); the _partial in the names dates from the earlier,
+                               more restricted C03 theorem
    Hypothesis of the history theorem: [det_ops_ok] -- the sub-messages mentioned by the operations
    are themselves well-formed concrete values (distinct numbers, distinct map keys).
    Not modelled: lazily decoded fields (the harness covers them: Deterministic forces the decode);
